@@ -2,13 +2,14 @@ import ClaripyProofs.Lemmas.Solver.Z3Obj
 /-!
 L1, part 2: `_satisfiable`, `_solution`, `_batch_eval`, `_extrema` over an exact oracle.
 `hook` is the model callback; all that is assumed about it is `HookOk`: it only touches the frontend record,
-never fails, and preserves a frontend predicate `P` when handed a partial model of the assertions `A`.
+never fails, and preserves a frontend predicate `P` when handed a partial model of the assertions `A` — a dict
+(`PModel.Sorted`: the models `_generic_model` builds have one entry per constant).
 -/
 namespace Claripy.Solver
 
 structure HookOk (hook : PModel → M Unit) (A : List ZCon) (P : Frontend → Prop) : Prop where
   frame : ∀ m s, ∃ fe', hook m s = (.ok (), { s with fe := fe' })
-  pres : ∀ m s, P s.fe → PartialModelOf m A → P (hook m s).2.fe
+  pres : ∀ m s, P s.fe → PartialModelOf m A → m.Sorted → P (hook m s).2.fe
 
 /-- what an L1 algorithm may change: the object `r` (its frames are described separately), the frontend record only
 through the hook (so `P` is preserved) -/
@@ -24,12 +25,12 @@ theorem CheckStep.toL1 {r : Nat} {s s' : St} (h : CheckStep r s s') (P : Fronten
   ⟨h.toObjStep, fun hp => by rw [h.fe]; exact hp⟩
 
 theorem HookOk.step {hook : PModel → M Unit} {A : List ZCon} {P : Frontend → Prop} (hh : HookOk hook A P)
-    (m : PModel) (s : St) (r : Nat) (hm : PartialModelOf m A) :
+    (m : PModel) (s : St) (r : Nat) (hm : PartialModelOf m A) (hd : m.Sorted) :
     (hook m s).1 = .ok () ∧ L1Step r P s (hook m s).2 ∧ (hook m s).2.objs = s.objs := by
   obtain ⟨fe', h⟩ := hh.frame m s
   have hp := hh.pres m s
   rw [h] at hp ⊢
-  exact ⟨rfl, ⟨⟨rfl, fun _ _ => rfl, rfl, rfl⟩, fun hP => hp hP hm⟩, rfl⟩
+  exact ⟨rfl, ⟨⟨rfl, fun _ _ => rfl, rfl, rfl⟩, fun hP => hp hP hm hd⟩, rfl⟩
 
 theorem objAt_of_objs_eq {s s' : St} (h : s'.objs = s.objs) (r : Nat) : objAt s' r = objAt s r := by
   simp [objAt, h]
@@ -58,7 +59,7 @@ theorem z3Satisfiable_spec {E : Env} (hE : OracleExact E) {hook : PModel → M U
       obtain ⟨hp, hsat, hstep⟩ := hc
       have hm : PartialModelOf (PModel.ofKeys vals keys) A :=
         hp.mono (fun c hc => List.mem_append_left _ (hA c hc))
-      obtain ⟨hok, hst, hobjs⟩ := hh.step (PModel.ofKeys vals keys) s1 r hm
+      obtain ⟨hok, hst, hobjs⟩ := hh.step (PModel.ofKeys vals keys) s1 r hm (PModel.sorted_ofKeys vals keys)
       rcases hk : hook (PModel.ofKeys vals keys) s1 with ⟨res2, s2⟩
       rw [hk] at hok hst hobjs
       simp only at hok
@@ -149,7 +150,7 @@ theorem batchEvalLoop_spec {E : Env} (hE : OracleExact E) {hook : PModel → M U
         obtain ⟨hp, hsat, hstep⟩ := hc
         have hm : PartialModelOf (PModel.ofKeys vals keys) A :=
           hp.mono (fun c hc => List.mem_append_left _ (hA c hc))
-        obtain ⟨hok, hst, hobjs⟩ := hh.step (PModel.ofKeys vals keys) s1 r hm
+        obtain ⟨hok, hst, hobjs⟩ := hh.step (PModel.ofKeys vals keys) s1 r hm (PModel.sorted_ofKeys vals keys)
         rcases hk : hook (PModel.ofKeys vals keys) s1 with ⟨res2, s2⟩
         rw [hk] at hok hst hobjs
         simp only at hok hobjs
